@@ -51,7 +51,7 @@ Proof. exact replicas_spec_nts. Qed.
 (* the prefix properties the precomputation relies on *)
 Theorem C04_prefix_simple : forall (g : ring N) t rf m,
   (rf <= m)%nat -> simple_replicas g t rf = firstn rf (simple_replicas g t m).
-Proof. exact (prefix_simple (fun _ => None) (fun _ => None)). Qed.
+Proof. exact prefix_simple. Qed.
 
 Theorem C04_prefix_nts : forall dcf rackf (g : ring N) t d rf m,
   (rf <= m)%nat -> (m <= rack_count rackf (dc_ring dcf g d))%nat ->
@@ -66,7 +66,7 @@ Theorem C04_token_snap : forall dcf rackf (g : ring N) t d rf e,
      nts_replicas dcf rackf g (fst e) d rf = nts_replicas dcf rackf g t d rf).
 Proof.
   exact (fun dcf rackf g t d rf e =>
-           conj (snap_simple dcf rackf g t rf e) (snap_nts dcf rackf g t d rf e)).
+           conj (snap_simple g t rf e) (snap_nts dcf rackf g t d rf e)).
 Qed.
 
 (* lookups in the precomputed data = on-the-fly computation, for EVERY set of strategies the
@@ -76,7 +76,7 @@ Theorem C04_precomputed : forall dcf rackf (g : ring N) pre t d rf,
   (sorted_strict (dc_ring dcf g d) -> get_nts dcf rackf g pre t d rf = nts_replicas dcf rackf g t d rf).
 Proof.
   exact (fun dcf rackf g pre t d rf =>
-           conj (precomputed_simple dcf rackf g pre t rf) (precomputed_nts dcf rackf g pre t d rf)).
+           conj (precomputed_simple g pre t rf) (precomputed_nts dcf rackf g pre t d rf)).
 Qed.
 
 (* the one-entry evaluation used by the model = a lookup in the materialised precomputed ring *)
@@ -88,7 +88,7 @@ Theorem C04_precomputed_rings : forall dcf rackf (g : ring N) pre t d m,
   pre_lookup (dc_ring dcf g d) (fun tk => nts_replicas dcf rackf g tk d m) t.
 Proof.
   exact (fun dcf rackf g pre t d m =>
-           conj (pre_lookup_simple_materialised dcf rackf g pre t) (pre_lookup_nts_materialised dcf rackf g d m t)).
+           conj (pre_lookup_simple_materialised g pre t) (pre_lookup_nts_materialised dcf rackf g d m t)).
 Qed.
 
 Theorem C04_precomputed_any : forall dcf rackf (g : ring N) pre pre' t s dc,
@@ -129,21 +129,21 @@ Theorem C04_views_choose : forall dcf rackf (g : ring N) pre t s dc index,
   nth_error (rs_iter dcf rackf g pre t (replicas_for dcf rackf g pre t s dc)) index.
 Proof. exact choose_view'. Qed.
 
-Theorem C04_views_nodup : forall dcf rackf (g : ring N) pre t s dc,
-  sorted_strict g -> NoDup (rs_iter dcf rackf g pre t (replicas_for dcf rackf g pre t s dc)).
+Theorem C04_views_nodup : forall dcf rackf (g : ring N) pre t,
+  sorted_strict g -> forall s dc, NoDup (rs_iter dcf rackf g pre t (replicas_for dcf rackf g pre t s dc)).
 Proof. exact iter_NoDup. Qed.
 
 (* the ring-ordered view: exactly the set's nodes, in the order of their first position on the
    ring walk from the token; the code's `assert!(all_replicas.is_empty())` never fires *)
-Theorem C04_views_ordered : forall dcf rackf (g : ring N) pre t s dc,
-  sorted_strict g -> nts_keys_ok s ->
+Theorem C04_views_ordered : forall dcf rackf (g : ring N) pre t,
+  sorted_strict g -> forall s dc, nts_keys_ok s ->
   rs_ordered dcf rackf g pre t (replicas_for dcf rackf g pre t s dc) =
   (filter (fun x => mem x (rs_iter dcf rackf g pre t (replicas_for dcf rackf g pre t s dc)))
           (uniq (ring_range g t)), []).
 Proof. exact ordered_view. Qed.
 
-Theorem C04_views_ordered_perm : forall dcf rackf (g : ring N) pre t s dc,
-  sorted_strict g -> nts_keys_ok s ->
+Theorem C04_views_ordered_perm : forall dcf rackf (g : ring N) pre t,
+  sorted_strict g -> forall s dc, nts_keys_ok s ->
   Permutation (fst (rs_ordered dcf rackf g pre t (replicas_for dcf rackf g pre t s dc)))
               (rs_iter dcf rackf g pre t (replicas_for dcf rackf g pre t s dc)).
 Proof. exact ordered_perm. Qed.
@@ -154,9 +154,6 @@ Proof. exact ordered_perm. Qed.
    unrestricted NTS set can start with a non-replica, and a SimpleStrategy answer differs
    between the precomputed and the on-the-fly path.  The theorems above therefore assume
    [sorted_strict g] for those statements;  KnownClass := the global ring repeats a token. *)
-Definition C04_dup_dcf (n : N) : option N := match n with 2%N => Some 2%N | _ => Some 1%N end.
-Definition C04_dup_ring : ring N := [(10, 1%N); (10, 2%N); (20, 3%N)].
-
 Theorem C04_views_ordered_refuted :
   exists dcf rackf g pre t s dc,
     sorted_weak g /\ (forall d, sorted_strict (dcpos dcf g d)) /\ nts_keys_ok s /\
@@ -175,8 +172,9 @@ Definition ex_dcf (n : N) : option N :=
 Definition ex_rackf (n : N) : option N :=
   match n with 6%N | 7%N => Some 2%N | _ => Some 1%N end.
 Definition ex_raw : ring N :=
+  map (fun e => (fst e, N.of_nat (snd e)))
   [(50,1);(250,1);(400,1);(100,2);(600,2);(900,2);(300,3);(650,3);(700,3);(350,4);(550,4);
-   (150,5);(750,5);(200,6);(450,6);(500,7);(800,7)]%N.
+   (150,5);(750,5);(200,6);(450,6);(500,7);(800,7)]%nat.
 Definition ex_g := sort_ring ex_raw.
 
 Example C04_ex_hyps : sorted_strict ex_g /\ nts_keys_ok (NTS [(1%N, 3%nat); (2%N, 3%nat)]).
@@ -204,8 +202,8 @@ Example C04_ex_views :
 Proof. repeat split; vm_compute; reflexivity. Qed.
 
 Example C04_ex_dup :
-  rs_iter C04_dup_dcf (fun _ => None) C04_dup_ring [] 10 (RChained [(1%N, 1%nat)]) = [1%N] /\
-  fst (rs_ordered C04_dup_dcf (fun _ => None) C04_dup_ring [] 10 (RChained [(1%N, 1%nat)])) = [3; 1]%N.
+  rs_iter dup_dcf (fun _ => None) dup_ring [] 10 (RChained [(1%N, 1%nat)]) = [1%N] /\
+  fst (rs_ordered dup_dcf (fun _ => None) dup_ring [] 10 (RChained [(1%N, 1%nat)])) = [3; 1]%N.
 Proof. split; vm_compute; reflexivity. Qed.
 
 Print Assumptions C04_ring.
